@@ -41,7 +41,6 @@ fn last_list_req(sim: &Sim) -> (Vec<u32>, Vec<u32>, i64) {
 fn classify(e: &Error) -> &'static str { match e { Error::AWS(AWSError::S3ObjectNotFoundError) => "notfound", _ => "err" } }
 
 pub fn run(args: &Args) {
-    watchdog(1500);
     let rt = runtime();
     let mut rng = Rng::new(args.seed);
     match args.mode.as_str() {
